@@ -158,10 +158,12 @@ func New(startTime time.Time, logLevel slog.Level) *Handler {
 	// Galileo keeps GPS time.
 	startOfGalileoWeek := startOfGPSWeek
 
-	// Set the stored timestamps to match the start time.
-	timestampFromPreviousGPSMessage := (uint(startTime.Sub(startOfGPSWeek).Milliseconds()))
+	// The start time only has to lie somewhere in the week of the first
+	// observation, so the first timestamp may be earlier in the week than the
+	// start time.  Start the stored timestamps at the beginning of the week.
+	var timestampFromPreviousGPSMessage uint = 0
 	timestampFromPreviousGalileoMessage := timestampFromPreviousGPSMessage
-	timestampFromPreviousBeidouMessage := (uint(startTime.Sub(startOfBeidouWeek).Milliseconds()))
+	var timestampFromPreviousBeidouMessage uint = 0
 
 	handler := Handler{
 		startOfGPSWeek:                      startOfGPSWeek,
